@@ -331,10 +331,10 @@ pub fn run(ctx: &Ctx) -> Report {
         "model_checking",
         "bank configurations (1..2 banks, thorough: 3; address units 1/3/8/16 bits, sized and unbounded, fill, labelalign, second window adjacent / 1-bit gap / 1-unit gap / 1-bit overlap / before / no output, both definition orders) x all item sequences up to a length over {bank switches, unit/sub-unit/two-unit data, #res, #align, #addr forward/start/end, label}; reference layout decides must-reject, invariants checked on every success. Non-trivial = reference defines the outcome and (>=2 banks or sub-unit data or must-reject); distinct by program text.",
     );
-    // banks whose addresses, counted in bits, no longer fit a machine word, and banks at negative addresses: alignment
+    // banks whose addresses, counted in bits, no longer fit a machine word, banks at and around 2^64 (in address units) and banks at negative addresses: alignment
     // to a non-power-of-two (the remainder must be taken of the whole number)
     {
-        let addrs: [i64; 9] = [1 << 61, (1 << 61) + 1, (1 << 61) + 2, (1 << 62) + 1, -1, -2, -3, -4, 0x7fff_ffff_ffff_fff0];
+        let addrs: [i128; 12] = [1 << 61, (1 << 61) + 1, (1 << 61) + 2, (1 << 62) + 1, -1, -2, -3, -4, 0x7fff_ffff_ffff_fff0, 1 << 64, (1 << 64) + 1, (1 << 64) - 1];
         let alpha = ["#d8 1", "#align 24", "#align 16", "L:", "#res 1", "#d8 2", "#align 40"];
         let la: [Option<usize>; 2] = [None, Some(24)];
         let maxlen = if ctx.thorough { 4 } else { 3 };
@@ -343,7 +343,7 @@ pub fn run(ctx: &Ctx) -> Report {
         rep.absorb(par_run(per * (addrs.len() * la.len()) as u64, |i, l| {
             let d = decode(i, &[per, addrs.len() as u64, la.len() as u64]);
             let seq = seq_decode(d[0], ka, maxlen);
-            let bank = BankSrc { name: "a".into(), bits: Some(8), addr: Some(addrs[d[1] as usize] as i128), size: None, outp: Some(0), fill: false, labelalign: la[d[2] as usize] };
+            let bank = BankSrc { name: "a".into(), bits: Some(8), addr: Some(addrs[d[1] as usize]), size: None, outp: Some(0), fill: false, labelalign: la[d[2] as usize] };
             let mut items = vec![Item::Bankdef(bank), Item::Bank("a".into())];
             let mut nl = 0;
             for s in &seq {
